@@ -178,6 +178,35 @@ impl Iterator for It {{
     }}
 }}
 
+/// A genuinely endless source: the input, then tokens for ever.  Its size hint says so truthfully
+/// (`(usize::MAX, None)`, like `repeat` / `cycle`).  Only used for inputs that must be rejected at one
+/// of their own tokens, so the endless tail is never reached by a correct parser.
+struct Endless {{
+    inner: It,
+}}
+
+impl Iterator for Endless {{
+    type Item = gen::{tok};
+    fn next(&mut self) -> Option<gen::{tok}> {{
+        if self.inner.i < self.inner.kinds.len() {{
+            return self.inner.next();
+        }}
+        self.inner.total.set(self.inner.total.get() + 1);
+        let p = self.inner.i;
+        let k = (p * 7 + self.inner.kinds.len()).checked_rem(NTERMS)?;
+        if p > self.inner.kinds.len() + 100_000 {{
+            // (a parser that runs into the tail is wrong already; do not let it run for ever)
+            return None;
+        }}
+        self.inner.i += 1;
+        self.inner.some.set(self.inner.some.get() + 1);
+        Some(mk(k, p, self.inner.scheme))
+    }}
+    fn size_hint(&self) -> (usize, Option<usize>) {{
+        (usize::MAX, None)
+    }}
+}}
+
 fn run_line(line: &str) -> String {{
     let mut parts = line.split_whitespace();
     let flavour: usize = parts.next().unwrap().parse().unwrap();
@@ -190,6 +219,7 @@ fn run_line(line: &str) -> String {{
         match flavour {{
             0 => gen::parse(It {{ kinds, i: 0, scheme, some: s2, total: t2, late: 0, ended: false }}),
             3 => gen::parse(It {{ kinds, i: 0, scheme, some: s2, total: t2, late: 40, ended: false }}),
+            4 => gen::parse(Endless {{ inner: It {{ kinds, i: 0, scheme, some: s2, total: t2, late: 0, ended: false }} }}),
             1 => {{
                 let v: Vec<gen::{tok}> = kinds.iter().enumerate().map(|(p, k)| mk(*k, p, scheme)).collect();
                 s2.set(usize::MAX);
